@@ -41,6 +41,9 @@ def classify_access(frames):
         # operation it executes on behalf of the program
         return "engine", frames[0][0].split("/")[-1]
     for fn, loc in frames:
+        if "/pkg/mod/" in loc:
+            # the innermost non-stdlib frame is in a third-party module (kcp-go, smux, pion, gorilla)
+            return "thirdparty", loc.split("/pkg/mod/", 1)[1].split("@")[0]
         if (vlib.REPO + "/") not in loc:
             continue
         rel = loc.split(vlib.REPO + "/", 1)[1]
@@ -59,10 +62,10 @@ def classify_access(frames):
     return "other", "?"
 
 
-def collect(workdir, harness):
+def collect(workdir, harness, pattern="race-%s-*"):
     """Returns (violations, harness_only, mixed): violations = {sig: example text}."""
     viol, honly, mixed, engine = {}, 0, {}, {}
-    for a, b, text in parse_reports(glob.glob(os.path.join(workdir, "race-%s-*" % harness))):
+    for a, b, text in parse_reports(glob.glob(os.path.join(workdir, pattern % harness))):
         ka, sa = classify_access(a[1])
         kb, sb = classify_access(b[1])
         if "engine" in (ka, kb):
@@ -70,6 +73,10 @@ def collect(workdir, harness):
         elif ka == "snowflake" and kb == "snowflake":
             sig = "race:" + "<->".join(sorted([sa, sb]))
             viol.setdefault(sig, "%s by %s vs %s by %s\n%s" % (a[0], sa, b[0], sb, text[:3000]))
+        elif "thirdparty" in (ka, kb):
+            sig = "thirdparty:" + "<->".join(sorted([sa, sb]))
+            mixed.setdefault(sig, 0)
+            mixed[sig] += 1
         elif "harness" in (ka, kb) and "snowflake" in (ka, kb):
             sig = "<->".join(sorted([sa, sb]))
             mixed.setdefault(sig, 0)
